@@ -8,14 +8,14 @@
 (* argument / list / operand position, lists, partial lists, curly terms - for every writer and     *)
 (* double_quotes setting. The law is  Variant(Read(Write(T) ++ " ."), T).                            *)
 EXTENDS Integers, Sequences, FiniteSets, TLC, Json
-AtomClasses == {"alnum", "graphic", "solo", "quoted_plain", "quoted_escape", "empty", "non_ascii", "op_prefix", "op_infix", "op_postfix", "op_both", "comma", "bar", "nil", "curly", "user_prefix", "user_infix"}
+AtomClasses == {"alnum", "graphic", "solo", "quoted_plain", "quoted_escape", "empty", "non_ascii", "graphic_unicode", "op_prefix", "op_infix", "op_postfix", "op_both", "comma", "bar", "nil", "curly", "user_prefix", "user_infix"}
 NumClasses == {"int_pos", "int_neg", "int_zero", "float_pos", "float_neg", "float_negzero", "int_big"}
 Leaf == { <<"atom", c>> : c \in AtomClasses } \cup { <<"num", c>> : c \in NumClasses } \cup { <<"var">> }
 SmallLeaf == { <<"atom", "alnum">>, <<"atom", "op_infix">>, <<"atom", "op_prefix">>, <<"atom", "op_both">>, <<"atom", "quoted_escape">>, <<"num", "int_pos">>, <<"num", "int_neg">>,
-               <<"num", "float_pos">>, <<"num", "float_neg">>, <<"var">>, <<"atom", "nil">>, <<"atom", "comma">>, <<"atom", "bar">>, <<"atom", "curly">> }
+               <<"num", "float_pos">>, <<"num", "float_neg">>, <<"var">>, <<"atom", "nil">>, <<"atom", "comma">>, <<"atom", "bar">>, <<"atom", "curly">>, <<"atom", "graphic">>, <<"atom", "graphic_unicode">> }
 \* operator functors by class (the replayer knows the concrete names: default and user-defined operators)
-PrefixOps == {"minus", "plus", "naf", "user_fy", "user_fx", "colondash"}
-InfixOps == {"minus", "plus", "eq", "comma", "semicolon", "arrow", "colondash", "caret", "is", "user_xfx", "user_xfy", "user_yfx", "bar"}
+PrefixOps == {"minus", "plus", "naf", "user_fy", "user_fx", "colondash", "user_gfy"}   \* user_g*: names made of non-ASCII graphic characters
+InfixOps == {"minus", "plus", "eq", "comma", "semicolon", "arrow", "colondash", "caret", "is", "user_xfx", "user_xfy", "user_yfx", "bar", "user_gxfx"}
 PostfixOps == {"user_xf", "user_yf"}
 One(S) == { <<"pre", o, x>> : o \in PrefixOps, x \in S } \cup { <<"post", o, x>> : o \in PostfixOps, x \in S }
           \cup { <<"cmp1", x>> : x \in S } \cup { <<"curly", x>> : x \in S } \cup { <<"list1", x>> : x \in S } \cup { <<"partial", x>> : x \in S }
